@@ -5,7 +5,7 @@ from props.common import TRUSTED_BASE, ASSUMPTIONS
 
 ID = "C11"
 FORMAT_GROUP = "total"
-LEAN_MODULES = ["LexVerif.Props.C11", "LexVerif.Props.C11Int", "LexVerif.Props.Literals.ParseFloatParse", "LexVerif.Props.Literals.ParseFloatShared", "LexVerif.Props.Literals.ParseIntegerAlgorithm", "LexVerif.Props.Literals.UtilSkip", "LexVerif.Props.Literals.UtilNoskip", "LexVerif.Props.Literals.UtilIterator", "LexVerif.Props.Literals.UtilDigit", "LexVerif.Props.Literals.ParseFloatApi", "LexVerif.Props.Literals.ParseIntegerApi"]
+LEAN_MODULES = ["LexVerif.Props.C11", "LexVerif.Props.C04Format", "LexVerif.Props.C11Int", "LexVerif.Props.Literals.ParseFloatParse", "LexVerif.Props.Literals.ParseFloatShared", "LexVerif.Props.Literals.ParseIntegerAlgorithm", "LexVerif.Props.Literals.UtilSkip", "LexVerif.Props.Literals.UtilNoskip", "LexVerif.Props.Literals.UtilIterator", "LexVerif.Props.Literals.UtilDigit", "LexVerif.Props.Literals.ParseFloatApi", "LexVerif.Props.Literals.ParseIntegerApi"]
 GEN = ["literals"]
 TRUSTED = TRUSTED_BASE + [
     "the two relations are checked on the IMPLEMENTATION's results (second stage: the complete parser is re-run on the prefix "
